@@ -27,6 +27,62 @@ var elemKinds = []string{"objField", "ifaceField", "objArg", "ifaceArg", "inputF
 // element kinds that carry a default value
 var inputKinds = []string{"objArg", "ifaceArg", "inputField", "dirArg"}
 
+// element kinds whose NAME varies (everything the introspection result lists by name)
+var namedKinds = []string{"objType", "objField", "ifaceField", "objArg", "ifaceArg", "inputField", "enumValue", "directive", "dirArg"}
+
+// name shapes. caseTwin keeps the base name and adds a sibling that differs only in case.
+var nameValues = []string{"base", "leadUnderscore", "trailUnderscore", "innerUnderscore", "singleChar", "caseTwin", "goKeyword", "longest"}
+
+var baseNames = map[string]string{"objType": "Obj", "objField": "f", "ifaceField": "g", "objArg": "arg", "ifaceArg": "iarg",
+	"inputField": "a", "enumValue": "RED", "directive": "dir", "dirArg": "darg"}
+
+// distinct per kind so that two renamed elements never collide inside one type
+var singleCharNames = map[string]string{"objType": "Z", "objField": "z", "ifaceField": "y", "objArg": "z", "ifaceArg": "z",
+	"inputField": "z", "enumValue": "Z", "directive": "z", "dirArg": "z"}
+var goKeywordNames = map[string]string{"objType": "chan", "objField": "func", "ifaceField": "type", "objArg": "range", "ifaceArg": "select",
+	"inputField": "go", "enumValue": "defer", "directive": "package", "dirArg": "var"}
+
+func elementName(kind, shape string) string {
+	base := baseNames[kind]
+	switch shape {
+	case "base", "caseTwin":
+		return base
+	case "leadUnderscore":
+		return "_" + base
+	case "trailUnderscore":
+		return base + "_"
+	case "innerUnderscore":
+		return base + "_x"
+	case "singleChar":
+		return singleCharNames[kind]
+	case "goKeyword":
+		return goKeywordNames[kind]
+	case "longest":
+		n := base + "_"
+		for len(n) < 96 {
+			n += "LongName9_"
+		}
+		return n[:96]
+	}
+	panic("bad name shape " + shape)
+}
+
+// caseTwinName is the sibling that differs from the base name only in case.
+func caseTwinName(kind string) string {
+	base := baseNames[kind]
+	if up := strings.ToUpper(base); up != base {
+		return up
+	}
+	return strings.ToLower(base)
+}
+
+// nm is the name of the element of the given kind under assignment a; twin says whether a
+// sibling differing only in case is to be added.
+func (g *Grid) nm(a Assignment, kind string) (name string, twin bool) {
+	shape := g.val(a, kind+".name")
+	return elementName(kind, shape), shape == "caseTwin"
+}
+
 var descValues = []string{"none", "line", "block"}
 var deprValues = []string{"none", "bare", "reason"}
 var defValues = []string{"none", "int", "float", "bool", "string", "stringctl", "blockstr", "enum", "list", "object", "null"}
@@ -77,6 +133,9 @@ func buildSlots(maxWrapDepth int) []Slot {
 	}
 	for _, k := range inputKinds {
 		s = append(s, Slot{k + ".def", defValues})
+	}
+	for _, k := range namedKinds {
+		s = append(s, Slot{k + ".name", nameValues})
 	}
 	s = append(s,
 		Slot{"objImpl", []string{"none", "one", "twoIfaces", "twoObjs"}},
@@ -289,6 +348,21 @@ func (g *Grid) SDL(a Assignment) string {
 	var b strings.Builder
 	v := func(slot string) string { return g.val(a, slot) }
 	td := v("typeDesc")
+	objT, objTTwin := g.nm(a, "objType")
+	fN, fTwin := g.nm(a, "objField")
+	gN, gTwin := g.nm(a, "ifaceField")
+	argN, argTwin := g.nm(a, "objArg")
+	iargN, iargTwin := g.nm(a, "ifaceArg")
+	inN, inTwin := g.nm(a, "inputField")
+	evN, evTwin := g.nm(a, "enumValue")
+	dirN, dirTwin := g.nm(a, "directive")
+	dargN, dargTwin := g.nm(a, "dirArg")
+	twinLine := func(on bool, kind, indent, suffix string) string {
+		if !on {
+			return ""
+		}
+		return indent + caseTwinName(kind) + suffix
+	}
 
 	hasMut, hasSub := v("mutation") == "yes", v("subscription") == "yes"
 	if sd := v("schemaDesc"); sd != "none" {
@@ -303,7 +377,7 @@ func (g *Grid) SDL(a Assignment) string {
 		b.WriteString("}\n\n")
 	}
 
-	b.WriteString("type Query {\n  ping: String\n  obj: Obj\n  iface: I1\n  q(in: In, one: One, sc: Sc, c: Color): String\n")
+	b.WriteString("type Query {\n  ping: String\n  obj: " + objT + "\n  iface: I1\n  q(in: In, one: One, sc: Sc, c: Color): String\n")
 	if v("union") != "none" {
 		b.WriteString("  uni: U\n")
 	}
@@ -338,7 +412,8 @@ func (g *Grid) SDL(a Assignment) string {
 	}
 	b.WriteString(" {\n")
 	b.WriteString(descSDL(v("ifaceField.desc"), "  "))
-	b.WriteString("  g(\n" + g.inputValueSDL(a, "ifaceArg", "iarg", "    ") + "\n  ): String" + deprSDL(v("ifaceField.depr")) + "\n")
+	b.WriteString("  " + gN + "(\n" + g.inputValueSDL(a, "ifaceArg", iargN, "    ") + "\n" + twinLine(iargTwin, "ifaceArg", "    ", ": Int\n") + "  ): String" + deprSDL(v("ifaceField.depr")) + "\n")
+	b.WriteString(twinLine(gTwin, "ifaceField", "  ", ": Int\n"))
 	for _, e := range i1Extra {
 		b.WriteString(e)
 	}
@@ -357,22 +432,24 @@ func (g *Grid) SDL(a Assignment) string {
 	}
 	implFields := func() string {
 		var s strings.Builder
-		s.WriteString("  g(iarg: " + ifaceArgType + "): String\n")
+		s.WriteString("  " + gN + "(" + iargN + ": " + ifaceArgType + twinLine(iargTwin, "ifaceArg", ", ", ": Int") + "): String\n")
+		s.WriteString(twinLine(gTwin, "ifaceField", "  ", ": Int\n"))
 		for _, e := range i1Extra {
 			s.WriteString(e)
 		}
 		return s.String()
 	}
 	b.WriteString(descSDL(td, ""))
-	b.WriteString("type Obj")
+	b.WriteString("type " + objT)
 	if len(objIfaces) > 0 {
 		b.WriteString(" implements " + strings.Join(objIfaces, " & "))
 	}
 	b.WriteString(" {\n")
 	b.WriteString(descSDL(v("objField.desc"), "  "))
-	b.WriteString("  f(\n" + g.inputValueSDL(a, "objArg", "arg", "    ") + "\n    warg: " + renderWrap(v("inWrap"), "Int") + "\n  ): String" + deprSDL(v("objField.depr")) + "\n")
+	b.WriteString("  " + fN + "(\n" + g.inputValueSDL(a, "objArg", argN, "    ") + "\n" + twinLine(argTwin, "objArg", "    ", ": Int\n") + "    warg: " + renderWrap(v("inWrap"), "Int") + "\n  ): String" + deprSDL(v("objField.depr")) + "\n")
 	b.WriteString("  w: " + renderWrap(v("outWrap"), "Int") + "\n")
 	b.WriteString("  plain: Int\n")
+	b.WriteString(twinLine(fTwin, "objField", "  ", ": Int\n"))
 	if objImpl != "none" {
 		b.WriteString(implFields())
 	}
@@ -380,6 +457,9 @@ func (g *Grid) SDL(a Assignment) string {
 		b.WriteString("  j: Int\n")
 	}
 	b.WriteString("}\n\n")
+	if objTTwin {
+		b.WriteString("type " + caseTwinName("objType") + " {\n  x: Int\n}\n\n")
+	}
 	if objImpl == "twoObjs" {
 		b.WriteString("type Obj2 implements " + strings.Join(append([]string{"I1"}, i1Impl...), " & ") + " {\n" + implFields() + "}\n\n")
 	}
@@ -388,22 +468,22 @@ func (g *Grid) SDL(a Assignment) string {
 	switch v("union") {
 	case "one":
 		b.WriteString(descSDL(td, ""))
-		b.WriteString("union U = Obj\n\n")
+		b.WriteString("union U = " + objT + "\n\n")
 	case "two":
 		b.WriteString("type Other {\n  o: Int\n}\n\n")
 		b.WriteString(descSDL(td, ""))
-		b.WriteString("union U = Obj | Other\n\n")
+		b.WriteString("union U = " + objT + " | Other\n\n")
 	}
 
 	// enum
 	b.WriteString(descSDL(td, ""))
 	b.WriteString("enum Color {\n")
 	b.WriteString(descSDL(v("enumValue.desc"), "  "))
-	b.WriteString("  RED" + deprSDL(v("enumValue.depr")) + "\n  GREEN\n  BLUE\n}\n\n")
+	b.WriteString("  " + evN + deprSDL(v("enumValue.depr")) + "\n  GREEN\n  BLUE\n" + twinLine(evTwin, "enumValue", "  ", "\n") + "}\n\n")
 
 	// inputs
 	b.WriteString(descSDL(td, ""))
-	b.WriteString("input In {\n" + g.inputValueSDL(a, "inputField", "a", "  ") + "\n  b: Int\n}\n\n")
+	b.WriteString("input In {\n" + g.inputValueSDL(a, "inputField", inN, "  ") + "\n  b: Int\n" + twinLine(inTwin, "inputField", "  ", ": Int\n") + "}\n\n")
 	b.WriteString("input In2 {\n  n: Int\n  s: String\n  l: [Int]\n  o: In2\n}\n\n")
 	if v("oneOf") == "yes" {
 		b.WriteString("input One @oneOf {\n  x: Int\n  y: String\n}\n\n")
@@ -420,8 +500,11 @@ func (g *Grid) SDL(a Assignment) string {
 	}
 
 	// directive
+	if dirTwin {
+		b.WriteString("directive @" + caseTwinName("directive") + " on FIELD_DEFINITION\n\n")
+	}
 	b.WriteString(descSDL(v("dirDesc"), ""))
-	b.WriteString("directive @dir(\n" + g.inputValueSDL(a, "dirArg", "darg", "  ") + "\n  other: Int\n)")
+	b.WriteString("directive @" + dirN + "(\n" + g.inputValueSDL(a, "dirArg", dargN, "  ") + "\n  other: Int\n" + twinLine(dargTwin, "dirArg", "  ", ": Int\n") + ")")
 	if v("repeatable") == "yes" {
 		b.WriteString(" repeatable")
 	}
